@@ -691,11 +691,14 @@ func do_IMPORT_STAR(vm *Vm, arg int32) error {
 				loopErr = err
 				return true
 			}
-			vm.frame.Locals[name], err = py.GetAttrString(module, name)
+			// look the name up first: a listed name the module lacks must not
+			// leave a nil entry behind in the importer's namespace
+			value, err := py.GetAttrString(module, name)
 			if err != nil {
 				loopErr = err
 				return true
 			}
+			vm.frame.Locals[name] = value
 			return false
 		})
 		if iterErr != nil {
